@@ -554,7 +554,7 @@ pub fn run(ctx: &Ctx) -> PropResult {
     let mut meta = PropMeta::default();
     meta.exhaustive = false;
     meta.rule = format!(
-        "accept side: expressions generated from the documented grammar (per field a list of 1–4 items from *, */n with n up to the field size, a, a-b; month/weekday names in random case; 7 and ranges ending in 7 in the weekday field; extra/odd whitespace) and, per field, every value, every range start/end, every step and every name; reject side: ALL single-character edits (delete / replace / insert over {{0-9 * , - / + space a-z é}}) of {} base expressions. Verdicts: Ok ⇔ the reference grammar accepts, Err(InvalidFormat) otherwise, never a panic; shapes the documentation does not settle (leading zeros, a-b/n, steps above the field size, ? L W #) are skipped. For accepted expressions the denoted sets are read back behaviourally — clock pinned at t−1 min, fresh clone, next()==t ⇔ t is a member — with one query per value of each field (other fields held at members; day queries on days where the other day field cannot satisfy the OR) plus random minutes; and by window iteration — 24 successive results of one clone under a fixed clock compared with the model's enumeration (also on day-of-month lists/steps/ranges across short months). A further workload plants one invalid item (out-of-range value, zero step, reversed range, empty, junk, signed, trailing range part) inside an otherwise valid list, also directly after a `*`; thorough adds all double edits of four short bases. Every case non-trivial; distinct by hash of the expression.",
+        "accept side: expressions generated from the documented grammar (per field a list of 1–4 items from *, */n with n up to the field size, a, a-b; month/weekday names in random case; 7 and ranges ending in 7 in the weekday field; extra/odd whitespace) and, per field, every value, every range start/end, every step and every name; reject side: ALL single-character edits (delete / replace / insert over {{0-9 * , - / + space a-z é}}) of {} base expressions. Verdicts: Ok ⇔ the reference grammar accepts, Err(InvalidFormat) otherwise, never a panic; shapes the documentation does not settle (leading zeros, a-b/n, steps above the field size, ? L W #) are skipped. For accepted expressions the denoted sets are read back behaviourally — clock pinned at t−1 min, fresh clone, next()==t ⇔ t is a member — with one query per value of each field (other fields held at members; day queries on days where the other day field cannot satisfy the OR) plus random minutes; and by window iteration — 24 successive results of one clone under a fixed clock compared with the model's enumeration (also on day-of-month lists/steps/ranges across short months). A further workload plants one invalid item (out-of-range value, zero step, reversed range, empty, junk, signed, trailing range part) inside an otherwise valid list, also directly after a `*`; thorough adds all double edits of four short bases. Every case non-trivial; distinct by hash of the expression. Edit alphabet incl. characters whose case mapping lands on ASCII letters (ſ ı K İ). Boundary-shift sequences: an accepted expression, then as the next parse the same characters split differently (a field boundary moved by one character, two fields swapped), then the first again.",
         bases.len()
     );
     meta.required_bins = vec![
